@@ -130,6 +130,14 @@ out["states"] = [s.name for s in ode.sorted_states()]
 out["params"] = [p.name for p in ode.parameters]
 out["inter"] = [p.name for p in ode.intermediates]
 out["jax"] = pipeline.gen_py(ode, backend="jax", schemes=["explicit_euler"], remove_unused=True)
+# sub-models (component split): missing-variable layout and code
+out["sub"] = {}
+if len(ode.components) > 1:
+    for comp in ode.components:
+        a = comp.to_ode(); b = ode - comp
+        out["sub"][comp.name] = [dict(a.missing_variables), dict(b.missing_variables),
+                                 pipeline.gen_py(a, schemes=["explicit_euler"]),
+                                 pipeline.gen_py(b, missing_values=dict(a.missing_variables)) if a.missing_variables else ""]
 out["assign"] = [a.name for a in ode.sorted_assignments()]
 print("RESULT" + json.dumps(out))
 '''
@@ -211,6 +219,12 @@ def tasks(tier, seed):
         "parameters(g_K=2.0, g_k=0.5, gK=1.0)\nstates(v=1.0, V=2.0, v_=3.0)\nab = g_K*v\nAB = g_k*V\naB = gK*v_\ndv_dt = -ab\ndV_dt = -AB\ndv__dt = -aB\n",
         "parameters(p1=1.0, p10=2.0, p2=3.0, P1=4.0)\nstates(s1=1.0, s10=2.0, S1=3.0)\nds1_dt = -p1*s1\nds10_dt = -p10*s10 + p2\ndS1_dt = -P1*S1\n",
     ]
+    extra += [
+        # multi-component: several missing variables first referenced in different assignments, non-alphabetically
+        'parameters("A", a=0.5)\nparameters("B", b=2.0)\nstates("A", x=1.0, w=0.3)\nstates("B", q=2.0, p=0.5, zz=1.5)\n'
+        'expressions("A")\nu1 = a*x + q\nu2 = w*zz\nu3 = u1 + p\ndx_dt = -u3\ndw_dt = -u2 + p*q\n'
+        'expressions("B")\ndq_dt = -b*q + x\ndp_dt = -p + w\ndzz_dt = -zz*x\n',
+    ]
     for t in extra:
         P.append({"family": "ORDER", "id": text_id(t), "text": t, "meta": {}})
     dg = families.dag_family(3, 2)
@@ -221,6 +235,7 @@ def tasks(tier, seed):
     out = [dict(p, opts={"mode": "graph", "both": tier != "quick", "max_cond": 4 if tier == "quick" else None,
                      "max_space": 40 if tier == "quick" else 240}) for p in P]
     out.append({"family": "SCHEME", "id": "get_scheme_history", "text": "", "opts": {"mode": "scheme"}})
+    out.append({"family": "HISTORY", "id": "load_history", "text": "", "opts": {"mode": "load-history"}})
     return out + witness_tasks(PROP)
 
 
@@ -237,6 +252,8 @@ def work(task):
     prog = Prog(PROP, task)
     mode = task.get("opts", {}).get("mode", "graph")
     tier_timeout = 90
+    if mode == "load-history":
+        return load_history(prog)
     if mode == "scheme":
         res = xhair.run_crosshair(SCHEME_HARNESS, timeout_s=240)
         handle(prog, res, SCHEME_HARNESS, "get_scheme", main="history_independent", twin="history_twin")
@@ -274,6 +291,60 @@ def work(task):
     return prog.result()
 
 
+HIST_V1 = "parameters(a=1.0, b=2.0)\nstates(x=1.0, y=2.0)\ndx_dt = -a*x\ndy_dt = -b*y + x\n"
+HIST_V2 = "parameters(a=1.0, b=3.5)\nstates(x=1.0, y=2.0)\ndx_dt = -a*x + y\ndy_dt = -b*y + x*x\n"
+HIST_SCRIPT = r'''
+import sys, os, json, shutil
+sys.path.insert(0, "/verif")
+from vt import pipeline
+pipeline.quiet()
+from gotranx.load import load_ode
+d, mode = sys.argv[1], sys.argv[2]
+p = os.path.join(d, "model.ode")
+v1, v2 = open(os.path.join(d, "v1.ode")).read(), open(os.path.join(d, "v2.ode")).read()
+out = {}
+if mode == "history":
+    # earlier calls in the same process: load + generate v1 through the same path, then the file content changes
+    # while its mtime stays the same (cp -p, git checkout, archives with normalised timestamps, coarse mtime)
+    open(p, "w").write(v1); os.utime(p, (1_700_000_000, 1_700_000_000))
+    pipeline.gen_py(load_ode(p), schemes=["explicit_euler"])
+    os.chdir(d)
+    pipeline.gen_py(load_ode("model.ode"))
+    open(p, "w").write(v2); os.utime(p, (1_700_000_000, 1_700_000_000))
+    out["abs"] = pipeline.gen_py(load_ode(p), schemes=["explicit_euler"])
+    out["rel"] = pipeline.gen_py(load_ode("model.ode"), schemes=["explicit_euler"])
+    out["again"] = pipeline.gen_py(load_ode(p), schemes=["explicit_euler"])
+else:
+    open(p, "w").write(v2)
+    out["abs"] = out["rel"] = out["again"] = pipeline.gen_py(load_ode(p), schemes=["explicit_euler"])
+print("RESULT" + json.dumps(out))
+'''
+
+
+def load_history(prog):
+    """Histories of earlier load/generate calls in one process vs a fresh process (same file, same options)."""
+    import tempfile
+    res = {}
+    with tempfile.TemporaryDirectory(prefix="vt_c09h_") as d:
+        open(os.path.join(d, "v1.ode"), "w").write(HIST_V1)
+        open(os.path.join(d, "v2.ode"), "w").write(HIST_V2)
+        for mode in ("fresh", "history"):
+            env = dict(os.environ, PYTHONPATH="/verif")
+            p = subprocess.run([sys.executable, "-c", HIST_SCRIPT, d, mode], capture_output=True, text=True, env=env, timeout=300)
+            for line in p.stdout.splitlines():
+                if line.startswith("RESULT"):
+                    res[mode] = json.loads(line[6:])
+            if mode not in res:
+                prog.skip("load-history", f"subprocess failed: {p.stderr[-300:]}")
+                return prog.result()
+    for k in ("abs", "rel", "again"):
+        prog.fact(f"load-history|{k}", res["history"][k] == res["fresh"][k], "HistoryDependent",
+                  f"code generated for a file after earlier load/generate calls through the same path ({k}) differs from a fresh process")
+    prog.nontrivial = True
+    prog.samples.append({"history": "load v1 (abs + relative path), rewrite file with v2 keeping mtime, load again", "fresh": "load v2"})
+    return prog.result()
+
+
 def handle(prog, res, src, what, main, twin, text=None):
     by = {}
     for r in res:
@@ -303,8 +374,8 @@ def handle(prog, res, src, what, main, twin, text=None):
         prog.stats.queries += 1
         prog.stats.sat += 1
         if ok and out.strip() == "False":
-            prog._violation(label, "OrderDependent", f"{what}: real function gives a different result for "
-                            f"{r['call']} (a permuted iteration order of the dependency sets) than for the canonical order",
+            prog._violation(label, "OrderDependent", f"{what}: CrossHair counterexample {r['call']} reproduces on the real function "
+                            f"(the harness condition returns False when called concretely in a fresh interpreter)",
                             {"call": r["call"]})
         else:
             prog.unreproduced.append({"key": prog.key(label), "what": r["message"], "tried": [{"concrete": out[:200]}]})
